@@ -67,9 +67,10 @@ TRUSTED = [
     "keyword arguments the fake backend received; record(): the expected pa.open arguments are computed in props/c17.py",
     "recording histories: hand-written ALV/Model/C17Rec.lean (RecStream generator, AudioIO.record / recording_finished / "
     "the recordings loop of close) in its INTENDED behaviour, tied call by call (results of every take, reads issued, "
-    "device streams closed, _recordings, terminate); the fake input device delivers devChunk; the code under test "
-    "deviates from it on one class of histories (known finding D22), recognised by the model-side predicate "
-    "Driver/C17.lean:finishesLater",
+    "device streams closed, _recordings, terminate); the fake input device delivers devChunk; since c60d4c5 (D26: "
+    "recording_finished removes by identity) the code under test follows it on every history, and a call that raises "
+    "where the model has none is a model AND a spec disagreement (the model-side predicate Driver/C17.lean:finishesLater "
+    "only names a return of D26 in the signature)",
     "failed pa.open: no model; extra_checks compares the real code with itself (history with the failing play call vs "
     "the history without it: log, what every stream received, manager state)",
     "harness/sched.py (deterministic scheduler in place of `threading`) and harness/fakeaudio.py (fake pyaudio/_portaudio "
@@ -113,8 +114,7 @@ ASSUMPTIONS = [
     "call shapes (Lean): play_defaults, play_omitted_is_default, explicit_device_wins, frames_per_write; recording "
     "streams (Lean, all histories): rec_delivered_in_order, rec_manager_invariant, rec_closed_after_close",
     "NOT claimed: close(wait=True) with a player paused at that time blocks for ever (known finding D10b; model-level "
-    "theorems deadlock_pause_close_wait, deadlock_pause_close_wait_fixed); close() / take() with two or more active "
-    "recording streams raises TypeError (known finding D22, proposed fix D22-recording-finished-remove-by-identity.diff); "
+    "theorems deadlock_pause_close_wait, deadlock_pause_close_wait_fixed); "
     "the tie still carries liveness on the explored schedules of the real code (outcome done/deadlock compared step by "
     "step with the model)",
 ]
@@ -135,8 +135,9 @@ MANIFEST = {
             "(CPython threading semantics assumed); the models are hand written and validated against the code step by "
             "step along every explored schedule / call by call along every recording history, not extracted from it.  No "
             "PENDING statement.  Known findings excluded by explicit hypotheses / recognised signatures: wait=True with a "
-            "paused player (D10b), the last lock release of a player that left _threads before close looked (D15), close / "
-            "take with two active recording streams (D22, proposed fix).",
+            "paused player (D10b), the last lock release of a player that left _threads before close looked (D15).  "
+            "D26 (close / take with two active recording streams raised TypeError) is repaired in /repo (c60d4c5) and "
+            "compared strictly.",
     "technique": "interleaving transition system in Lean 4 with inductive invariants over all schedules and a ranking "
                  "function for termination; step-by-step bisimulation against the real code under a deterministic scheduler",
 }
@@ -1138,8 +1139,11 @@ def rec_model_problems(c, io, drv):
     out = []
     m = drv["model"]
     if io["aborted"] is not None:
-        # the history stopped at an exception the model does not have: only what came before counts
+        # the history stopped at an exception the model does not have (the model is total: no call of
+        # a recording history raises, apart from record() after terminate): a disagreement in itself
         j = io["aborted"]
+        out.append("call %d (%s) raised %s, the model has %r there" % (
+            j, io["log"][-1][0], io["log"][-1][1], m["log"][j] if j < len(m["log"]) else None))
         if io["log"][:j] != m["log"][:j]:
             out.append("log before the exception: impl %r model %r" % (io["log"][:j], m["log"][:j]))
         return out
@@ -1435,10 +1439,9 @@ def classify(c, io, drv):
         j = io.get("aborted")
         fl = drv["model"].get("finishes_later", [])
         if (j is not None and io["log"][-1][1] == "TypeError" and j < len(fl) and fl[j] and not any(fl[:j])):
-            # the model predicts exactly this call as the first one that finishes (closes) a recording
-            # stream which is not the oldest one still in _recordings
-            return ("rec:%s-raises-TypeError:finishes-a-recording-that-is-not-the-oldest-active-one" % io["log"][-1][0]
-                    + ("" if agrees else ":MODEL-DISAGREES"))
+            # the model names exactly this call as the first one that finishes (closes) a recording
+            # stream which is not the oldest one still in _recordings: D26 (fixed by c60d4c5) is back
+            return "rec:%s-raises-TypeError:finishes-a-recording-that-is-not-the-oldest-active-one" % io["log"][-1][0]
         return "rec:" + sp[0][0] + ("" if agrees else ":MODEL-DISAGREES")
     sp = spec_problems(c, io, drv)
     agrees = not model_problems(c, io, drv)
